@@ -817,7 +817,7 @@ def support_cert_item(var, spec, s, d, tau_lit):
 
 def member_tol_expr(spec, p, tau):
     from .. import narrow
-    return f"in_shape_tol {narrow.sh_expr(spec)} {narrow.wit_expr(spec, p)} {narrow.vq(p)} {narrow._q(tau)}"
+    return f"in_shape_tolD {narrow.sh_expr(spec)} {narrow.wit_expr(spec, p)} {narrow.vq(p)} {narrow._q(tau)}"
 
 
 def aabb_cert_expr(spec, lo, hi, tau):
